@@ -872,6 +872,23 @@ class TableInterp(DigitInterp):
         return DigitInterp.binop(self, n, op, a, b)
 
     def ev(self, n, env, depth):
+        cfg = getattr(self, 'self_config', None)
+        if cfg is not None and isinstance(n, ast.Attribute) and isinstance(n.value, ast.Name) and n.value.id == 'self' \
+                and dotted(n) not in self.attrs:
+            # an attribute of the configuration object itself: a property (slot) or a field assigned in __init__
+            from .c03 import init_assignments
+            if self.idx.find_method(cfg, n.attr)[1] is not None:
+                v = slot(self.evaluator, cfg, n.attr).value
+            else:
+                plain, _c = init_assignments(self.idx, cfg, n.attr)
+                if not plain:
+                    self.fail(n, 'attribute ' + ast.unparse(n))
+                try:
+                    v = self.evaluator.ev(plain[-1][0].mod, plain[-1][1].value)
+                except Unresolved as e:
+                    self.fail(n, 'attribute %s (%s)' % (ast.unparse(n), e))
+            self.attrs[dotted(n)] = v
+            return v
         if isinstance(n, ast.Subscript) and not isinstance(n.slice, ast.Slice):
             base = self.ev(n.value, env, depth)
             if isinstance(base, dict):
@@ -915,7 +932,17 @@ class TableInterp(DigitInterp):
             if isinstance(v, (list, str, range)):
                 return list(v)
         if isinstance(f, ast.Attribute) and dotted(f) == 'self.config.resolve_composite_number':
-            raise ProbeUnvalued(ast.unparse(n.args[0]) if n.args else '?', env)
+            cfg = self.attrs.get('<config class>')
+            tok = self.ev(n.args[0], env, depth) if n.args else None
+            if cfg is None or not getattr(self, 'interpret_composite', False):
+                raise ProbeUnvalued(ast.unparse(n.args[0]) if n.args else '?', env)
+            k_, fn_ = self.idx.find_method(cfg, 'resolve_composite_number')
+            if fn_ is None:
+                self.fail(n, 'configuration has no resolve_composite_number')
+            cattrs = {'self.' + name[len('self.config.'):]: v for name, v in self.attrs.items() if name.startswith('self.config.')}
+            sub = TableInterp(self.idx, cfg, '%s.resolve_composite_number' % cfg.name, cattrs, self.evaluator)
+            sub.self_config = cfg
+            return sub.call(fn_, [tok])
         if isinstance(f, ast.Attribute) and f.attr == 'clear' and not n.args:
             recv = self.ev(f.value, env, depth)
             if isinstance(recv, list):
@@ -1023,9 +1050,41 @@ def rule_compose(chk):
                 continue
             if not isinstance(got, (Decimal, int)) or Decimal(got) != Decimal(want):
                 bad.append('%s %s -> %s (expected %d)' % (kind, ' '.join(toks), got, want))
+        # the same spellings with the culture's separator word between a larger and a smaller addend ("one hundred AND one"):
+        # the separator token reaches resolve_composite_number and must contribute nothing
+        sep = slot(ev, cfg, 'word_separator_token').value
+        nsep = 0
+        if isinstance(sep, str) and sep.strip():
+            attrs2 = dict(attrs)
+            attrs2['<config class>'] = cfg
+            lexc = LEXICON[code]['card']
+            w1 = next((w for w, x in lexc.items() if x == 1 and ' ' not in w), None)
+            w3 = next((w for w, x in lexc.items() if x == 3), None)
+            w20 = next((w for w, x in lexc.items() if x in (20, 30) and ' ' not in w and '-' not in w), None)
+            for toks, want, kind in list(probes):
+                if kind != 'cardinal' or len(toks) < 2 or want % 100 != 0 or w3 is None:
+                    continue
+                for tail, add in (([w3], 3), ([w20, w3] if w20 else None, (lexc.get(w20, 0) + 3) if w20 else 0)):
+                    if tail is None:
+                        continue
+                    plain = list(toks) + tail
+                    with_sep = list(toks) + [sep] + tail
+                    vals_ = []
+                    for tl in (plain, with_sep):
+                        ti2 = TableInterp(idx, bnp, where, attrs2, ev)
+                        ti2.interpret_composite = True
+                        try:
+                            vals_.append(ti2.call(giv, [list(tl)]))
+                        except ProbeUnvalued as pu:
+                            vals_.append('unvalued %r' % pu.token)
+                    nsep += 1
+                    if vals_[0] != vals_[1] or not isinstance(vals_[1], (Decimal, int)) or Decimal(vals_[1]) != Decimal(want + add):
+                        bad.append('with separator: %s -> %s, %s -> %s (expected %d)' % (' '.join(with_sep), vals_[1], ' '.join(plain), vals_[0],
+                                                                                         want + add))
         nord = sum(1 for _t, _w, k in probes if k == 'ordinal')
         chk.judge(not bad, 'C04.compose', bnp.mod.path, '__get_int_value under %s[%s]' % (cfg.name, code),
-                  '%d token lists (%d ending in a round ordinal), %d wrong%s' % (len(probes), nord, len(bad), (': ' + '; '.join(bad)) if bad else ''),
+                  '%d token lists (%d ending in a round ordinal) + %d with the separator word %r, %d wrong%s' % (
+                      len(probes), nord, nsep, sep, len(bad), (': ' + '; '.join(bad)) if bad else ''),
                   'culture %s: the integer composition mis-values %s - round_number_set (%d words; BaseNumberParser.__init__) decides '
                   'which words close a multiplier group' % (code, '; '.join(bad[:5]), len(rset)), giv.lineno)
     if not seen:
